@@ -20,6 +20,14 @@ def record(alg, N):
         with quiet():
             g = SphereGridFactory.create(alg, N, 3)
             P = np.asarray(g.get_grid_as_array())
+            # a getter history before the checked answers: on odd N the documented numerical estimate of the areas is asked
+            # FIRST (on even N after the exact ones), and every matrix is asked twice; the last answers are the checked ones
+            if N % 2:
+                g.get_voronoi_volumes(approx=True)
+            else:
+                g.get_voronoi_volumes()
+                g.get_voronoi_volumes(approx=True)
+                g.get_cell_borders(); g.get_center_distances(); g.get_voronoi_adjacency()
             adj = g.get_voronoi_adjacency().tocoo()
             bo = g.get_cell_borders().tocoo()
             di = g.get_center_distances().tocoo()
